@@ -1,3 +1,76 @@
-import Sbdf.Slice
+/-
+  C04 — Reader decodes every well-formed SBDF 1.0 stream.
+  The stream is given by the declarative Spec (Sbdf/Spec.lean) applied to a *physical* table:
+  any valid layout, including those the library's writer never emits — non-maximal or 256-runs,
+  run-length or plain booleans, run-length strings/binaries, arbitrary property names and counts,
+  name lists in any order with unused names, entries with and without defaults.
+-/
+import Sbdf.Lemmas.ReadsTM
+import Sbdf.Props.C05
 namespace Sbdf.C04
+open Spec
+
+/-- a physical file: header, table metadata, slices, end marker -/
+def file (c : Cfg) (p : PhysTM) (slices : List (List CS)) : Bytes :=
+  header ++ Spec.tm c p ++ (slices.flatMap (Spec.ts c) ++ Spec.tsEnd)
+
+/-- the logical table metadata the reader must expose for `p` (columns as built by `buildCol`) -/
+def logicalTM (p : PhysTM) (cols : List Md) : TM :=
+  ⟨⟨p.table.map (fun e => ⟨e.1, some e.2.1, e.2.2⟩), false⟩, cols.map Md.freeze⟩
+
+/-- C04 (and the position clause of C07): for every well-formed physical table, every column
+    subset, any trailing bytes and any sufficient call bound, the caller's loop
+    `fh_read; tm_read; ts_read*` succeeds on every call, exposes exactly the encoded content —
+    table metadata, per-column metadata, every slice with every selected column's values and
+    properties (the stored arrays, whatever their layout) — and reports end-of-table exactly at
+    the end marker. -/
+theorem reads_wellformed (c : Cfg) (p : PhysTM) (cols : List Md) (slices : List (List CS))
+    (hp : p.Ok c cols) (hn : ∀ s ∈ slices, s.length = p.cols.length) (hf : ∀ s ∈ slices, TSFits c s)
+    (sub : Option (List Bool)) (rest : Bytes) (fuel : Nat) (hfuel : slices.length < fuel) :
+    readFileF c sub fuel (file c p slices ++ rest).toArray =
+      ⟨.ok (1, 0), some (.ok (logicalTM p cols)), slices.map (fun s => ⟨maskFrom sub 0 s⟩),
+       some (.tableEnd (file c p slices).length)⟩ := by
+  unfold readFileF file
+  have h1 := reads_fhRead [] (Spec.tm c p ++ (slices.flatMap (Spec.ts c) ++ Spec.tsEnd) ++ rest)
+  simp only [List.nil_append, List.length_nil, Nat.zero_add, List.append_assoc] at h1 ⊢
+  rw [h1]
+  simp only
+  have h2 := reads_tm c p cols hp header ((slices.flatMap (Spec.ts c) ++ Spec.tsEnd) ++ rest)
+  simp only [List.append_assoc] at h2
+  rw [h2]
+  simp only
+  have hcl : (logicalTM p cols).cols.length = p.cols.length := by simp [logicalTM, hp.clen]
+  have h3 := slices_loop c sub p.cols.length slices hn hf (header ++ Spec.tm c p) rest fuel hfuel
+  simp only [List.append_assoc, List.length_append] at h3
+  have hcl' : (List.map Md.freeze cols).length = p.cols.length := by simp [hp.clen]
+  simp only [hcl']
+  rw [h3]
+  simp [logicalTM, Nat.add_assoc]
+
+/-- every stored array decodes to its logical values: for run-length arrays the concatenation of
+    `run+1` copies of each value — maximal runs or not, runs of exactly 256 or not -/
+theorem decode_rle (c : Cfg) (rows : Int) (runs : Bytes) (vals : Obj) (sz : Nat)
+    (hsz : elemSizeOrPtr vals.tid = .ok sz) (hlen : runs.length = vals.count)
+    (hrows : (rleTotal runs : Int) = rows) (hfit : (sz : Int) * rows ≤ c.cap) (hmax : rows ≤ INT_MAX / sz) :
+    getValues c (.rle rows runs vals) = .ok ⟨vals.tid, rleExpand (runs.zip vals.elems)⟩ := by
+  simp only [getValues, hsz, hlen, ne_eq, not_true_eq_false, if_false, hrows]
+  have h1 : ¬ (rows > INT_MAX / (sz : Int)) := by omega
+  have h2 : ¬ ((sz : Int) * rows > c.cap) := by omega
+  simp only [h1, h2, if_false]
+  have hl : (rleExpand (runs.zip vals.elems)).length = rleTotal runs :=
+    C05.expand_zip_length runs vals.elems (by simpa [Obj.count] using hlen)
+  have : (rleExpand (runs.zip vals.elems)).length = rows.toNat := by rw [hl, ← hrows]; simp
+  simp [this]
+
+/-- column name and type from the `Name` / `DataType` entries, wherever they stand in the list -/
+theorem cm_name_type (m : Md) (nm : Bytes) (ty : UInt8) (pad : Bytes) (hpad : pad = [] ∨ pad.length = 2)
+    (hn : Md.get CM_NAME m = .ok ⟨10, [nm]⟩) (ht : Md.get CM_DATATYPE m = .ok ⟨12, [ty :: pad]⟩) :
+    cmGetName m = .ok nm ∧ cmGetType m = .ok ty.toNat := by
+  constructor
+  · simp [cmGetName, hn]
+  · simp only [cmGetType, ht]
+    rcases hpad with h | h
+    · subst h; simp
+    · simp [h]
+
 end Sbdf.C04
